@@ -280,1093 +280,7 @@ var _ = fmt.Sprintf
 
 // ---------- anchors: the Merge protocol functions, by role ----------
 
-type c14Merge struct {
-	Do, Assign, Commit, Complete *ssa.Function
-	AssignCall, CommitCall       ssa.CallInstruction
-	PrepareCalls, ResolveCalls   []ssa.CallInstruction
-	CompleteCalls                []ssa.CallInstruction
-	Prepare, Resolve             *ssa.Parameter
-}
-
-// c14FindMerge resolves, for every instantiation of the exported
-// syncutil.Merge.Do, the unexported protocol steps by their role inside Do:
-// assign = the method whose channel result Do receives from; commit = the
-// method whose result is handed to the resolve callback; complete = the
-// remaining method of the same receiver that takes the error.
-func c14FindMerge(c *Ctx) []*c14Merge {
-	const R = "C14.R1.merge-protocol"
-	gen := c.P.Fn(c14PkgSync, "Merge.Do")
-	if gen == nil {
-		c.LostAnchor(R, "~/internal/syncutil.Merge.Do")
-		return nil
-	}
-	for _, f := range []string{"lock", "committed", "items", "status", "pending", "pendingStatus"} {
-		if !c14HasField(c.P, c14PkgSync, "Merge", f) {
-			c.LostAnchor(R, "field ~/internal/syncutil.Merge."+f)
-			return nil
-		}
-	}
-	var out []*c14Merge
-	for _, D := range c.P.Instances(gen) {
-		if len(D.TypeArgs()) == 0 && D.TypeParams().Len() > 0 {
-			continue // generic template body: the instantiations are analysed
-		}
-		m := &c14Merge{Do: D}
-		dn := FnName(D)
-		for _, p := range D.Params {
-			sig, ok := p.Type().Underlying().(*types.Signature)
-			if !ok {
-				continue
-			}
-			if sig.Params().Len() == 0 && ErrResultIndex(sig) == 0 {
-				m.Prepare = p
-			}
-			if sig.Params().Len() == 1 && ErrResultIndex(sig) == 0 {
-				m.Resolve = p
-			}
-		}
-		if m.Prepare == nil || m.Resolve == nil {
-			c.LostAnchor(R, dn+": prepare/resolve callback parameters")
-			continue
-		}
-		recv := D.Params[0]
-		for _, call := range Calls(D, func(string) bool { return true }) {
-			cc := call.Common()
-			switch {
-			case cc.Value == ssa.Value(m.Prepare):
-				m.PrepareCalls = append(m.PrepareCalls, call)
-			case cc.Value == ssa.Value(m.Resolve):
-				m.ResolveCalls = append(m.ResolveCalls, call)
-			}
-			g := StaticCallee(call)
-			if g == nil || len(cc.Args) == 0 || cc.Args[0] != ssa.Value(recv) || g.Signature.Recv() == nil {
-				continue
-			}
-			v := call.Value()
-			isRecvd := false
-			if v != nil {
-				for _, r := range *v.Referrers() {
-					if u, ok := r.(*ssa.UnOp); ok && u.Op == token.ARROW {
-						isRecvd = true
-					}
-				}
-			}
-			switch {
-			case isRecvd:
-				m.Assign, m.AssignCall = g, call
-			case len(cc.Args) == 2 && isErrorType(cc.Args[1].Type()):
-				m.Complete = g
-				m.CompleteCalls = append(m.CompleteCalls, call)
-			}
-		}
-		for _, rc := range m.ResolveCalls {
-			if len(rc.Common().Args) != 1 {
-				continue
-			}
-			for _, r := range Roots(rc.Common().Args[0]) {
-				if call, ok := r.(*ssa.Call); ok {
-					if g := StaticCallee(call); g != nil && len(call.Call.Args) == 1 && call.Call.Args[0] == ssa.Value(recv) {
-						m.Commit, m.CommitCall = g, call
-					}
-				}
-			}
-		}
-		if m.Commit == nil {
-			// resolve may have been disconnected from commit (that is what R1 reports);
-			// fall back to: the receiver method that sets committed=true
-			for _, call := range Calls(D, func(string) bool { return true }) {
-				g := StaticCallee(call)
-				if g == nil || g == m.Assign || g == m.Complete || len(call.Common().Args) != 1 || call.Common().Args[0] != ssa.Value(recv) {
-					continue
-				}
-				for _, s := range c14FieldStores(g, c14TMerge, "committed") {
-					if b, ok := c14ConstBool(s.Val); ok && b {
-						m.Commit, m.CommitCall = g, call
-					}
-				}
-			}
-		}
-		ok := true
-		for what, f := range map[string]*ssa.Function{"assign (channel result received)": m.Assign, "commit (result handed to resolve / sets committed)": m.Commit, "complete (takes the error)": m.Complete} {
-			if f == nil {
-				c.LostAnchor(R, dn+": step "+what)
-				ok = false
-			}
-		}
-		if ok {
-			out = append(out, m)
-		}
-	}
-	if len(out) == 0 {
-		c.LostAnchor(R, "instantiation of ~/internal/syncutil.Merge.Do with resolvable steps")
-	}
-	return out
-}
-
-// ---------- R1 ----------
-
-// c14RecvField: v is field `name` of the mergeStatus value received from the
-// channel returned by call (through the local the value was stored in).
-func c14RecvField(v ssa.Value, call ssa.CallInstruction) string {
-	isRecv := func(x ssa.Value) bool {
-		for _, r := range Roots(x) {
-			u, ok := r.(*ssa.UnOp)
-			if !ok || u.Op != token.ARROW || u.X != call.Value() {
-				return false
-			}
-		}
-		return true
-	}
-	for _, r := range Roots(v) {
-		switch u := r.(type) {
-		case *ssa.Field:
-			if isRecv(u.X) {
-				return u.X.Type().Underlying().(*types.Struct).Field(u.Field).Name()
-			}
-		case *ssa.UnOp:
-			fa, ok := u.X.(*ssa.FieldAddr)
-			if !ok || u.Op != token.MUL {
-				continue
-			}
-			a, ok := fa.X.(*ssa.Alloc)
-			if !ok {
-				continue
-			}
-			sts := storesTo(a)
-			if len(sts) == 1 && isRecv(sts[0].Val) {
-				return a.Type().Underlying().(*types.Pointer).Elem().Underlying().(*types.Struct).Field(fa.Field).Name()
-			}
-		}
-	}
-	return ""
-}
-
-func c14RootSet(v ssa.Value) map[ssa.Value]bool {
-	out := map[ssa.Value]bool{}
-	for _, r := range Roots(v) {
-		out[r] = true
-	}
-	return out
-}
-
-func c14R1(c *Ctx, ms []*c14Merge) {
-	const R = "C14.R1.merge-protocol"
-	c.Expect(R, 34)
-	for _, m := range ms {
-		c14R1Do(c, m)
-		c14R1Complete(c, m)
-		c14R1Assign(c, m)
-		c14R1Commit(c, m)
-	}
-}
-
-func c14R1Do(c *Ctx, m *c14Merge) {
-	const R = "C14.R1.merge-protocol"
-	D := m.Do
-	dn := FnName(D)
-	// the main test
-	mainVals := map[ssa.Value]bool{}
-	for _, i := range Ifs(D) {
-		cond, _, _ := ifEdges(i)
-		if c14RecvField(cond, m.AssignCall) == "main" {
-			mainVals[cond] = true
-		}
-	}
-	te, fe := BoolTests(D, mainVals)
-	if !c.Check(R, dn+"|main-test", D.Pos(), len(te) == 1, "Do branches on the `main` flag of the status it received from assign's channel") {
-		return
-	}
-	mainE, otherE := te[0], fe[0]
-	mainCut := newCut().Edges(mainE)
-	all := func(cs []ssa.CallInstruction, f func(ssa.CallInstruction) bool) bool {
-		for _, x := range cs {
-			if !f(x) {
-				return false
-			}
-		}
-		return len(cs) > 0
-	}
-	onMain := func(x ssa.CallInstruction) bool { return MustPass(x.(ssa.Instruction), mainCut) }
-	var commits []ssa.CallInstruction
-	for _, call := range Calls(D, func(string) bool { return true }) {
-		if StaticCallee(call) == m.Commit {
-			commits = append(commits, call)
-		}
-	}
-	ok := all(m.PrepareCalls, onMain) && all(commits, onMain) && all(m.ResolveCalls, onMain) && all(m.CompleteCalls, onMain)
-	c.Check(R, dn+"|only-main-runs-the-batch", mainE.From.Instrs[len(mainE.From.Instrs)-1].Pos(), ok,
-		ifelse(ok, "prepare, commit, resolve and complete are reached only on the main==true edge", "a caller that is not the batch's main can run prepare/commit/resolve/complete (two read-modify-write cycles of one index run concurrently: lost update)"))
-	// prepare runs on every main path, before resolve
-	r := c14AnyReturnReachable(mainE.To, newCut().Calls(m.PrepareCalls))
-	c.Check(R, dn+"|prepare-on-every-main-path", D.Pos(), r == nil && len(m.PrepareCalls) > 0, "every path of the main branch calls prepare()")
-	// commit on every main path
-	r = c14AnyReturnReachable(mainE.To, newCut().Calls(commits))
-	c.Check(R, dn+"|commit-on-every-path", D.Pos(), r == nil,
-		ifelse(r == nil, "every path of the main branch (also after a prepare error) calls commit()", "a path of the main branch returns without commit(): complete() then reopens a window that was never closed and the batch bookkeeping is off"))
-	// resolve: with commit's result, iff prepare succeeded
-	var prepNil, prepNonNil []Edge
-	prepErr := map[ssa.Value]bool{}
-	for _, pc := range m.PrepareCalls {
-		if e := ErrOf(pc); e != nil {
-			for a := range Aliases(e) {
-				prepErr[a] = true
-			}
-		}
-	}
-	prepNil, prepNonNil, _ = NilTests(D, prepErr)
-	for i, rc := range m.ResolveCalls {
-		key := fmt.Sprintf("%s|resolve#%d", dn, i+1)
-		okArg := len(rc.Common().Args) == 1 && m.CommitCall != nil && SameValue(rc.Common().Args[0], m.CommitCall.Value())
-		c.Check(R, key+"|gets-committed-items", rc.Pos(), okArg,
-			ifelse(okArg, "resolve receives exactly the slice returned by commit()", "resolve is not called with the slice returned by commit(): changes batched by concurrent callers are dropped"))
-		okPre := len(prepNil) > 0 && MustPass(rc.(ssa.Instruction), newCut().Edges(prepNil...))
-		c.Check(R, key+"|only-after-prepare-ok", rc.Pos(), okPre,
-			ifelse(okPre, "resolve is reached only on the nil edge of prepare's error", "resolve can run although prepare failed (the update is computed from a list that was never fetched)"))
-		okOrder := true
-		for _, cm := range commits {
-			if Reachable(rc.(ssa.Instruction), cm.(ssa.Instruction)) {
-				okOrder = false
-			}
-		}
-		c.Check(R, key+"|after-commit", rc.Pos(), okOrder, "no commit() after resolve")
-	}
-	if len(m.ResolveCalls) == 0 {
-		c.Violation(R, dn+"|resolve#1|gets-committed-items", D.Pos(), "Do never calls resolve")
-	}
-	for _, e := range prepNil {
-		r := c14AnyReturnReachable(e.To, newCut().Calls(m.ResolveCalls))
-		c.Check(R, dn+"|resolve-whenever-prepare-ok", e.From.Instrs[len(e.From.Instrs)-1].Pos(), r == nil,
-			ifelse(r == nil, "after a successful prepare every path calls resolve", "a path returns after a successful prepare without calling resolve: the batch is reported done but never applied"))
-	}
-	// complete on every main path, with the error of prepare/resolve, which is also returned
-	r = c14AnyReturnReachable(mainE.To, newCut().Calls(m.CompleteCalls))
-	c.Check(R, dn+"|complete-on-every-path", D.Pos(), r == nil,
-		ifelse(r == nil, "every path of the main branch calls complete() before returning", "a path of the main branch returns without complete(): every later updater of this subject parks forever"))
-	resErr := map[ssa.Value]bool{}
-	for _, rc := range m.ResolveCalls {
-		if e := ErrOf(rc); e != nil {
-			resErr[e] = true
-		}
-	}
-	for i, cc := range m.CompleteCalls {
-		key := fmt.Sprintf("%s|complete#%d", dn, i+1)
-		arg := cc.Common().Args[1]
-		roots := c14RootSet(arg)
-		okSrc, hasNilConst := true, false
-		for v := range roots {
-			if !prepErr[v] && !resErr[v] {
-				if isNilConst(v) {
-					hasNilConst = true
-				} else {
-					okSrc = false
-				}
-			}
-		}
-		needsRes := false
-		for _, rc := range m.ResolveCalls {
-			if Reachable(rc.(ssa.Instruction), cc.(ssa.Instruction)) {
-				needsRes = true
-			}
-		}
-		if needsRes {
-			has := false
-			for v := range roots {
-				if resErr[v] {
-					has = true
-				}
-			}
-			okSrc = okSrc && has
-		}
-		needsPrep := false
-		for _, e := range prepNonNil {
-			if reach(e.To, 0, cc.(ssa.Instruction), newCut().Calls(m.ResolveCalls)) {
-				needsPrep = true
-			}
-		}
-		if needsPrep {
-			has := false
-			for v := range roots {
-				if prepErr[v] {
-					has = true
-				}
-			}
-			okSrc = okSrc && has
-		}
-		switch {
-		case okSrc && hasNilConst:
-			c.Undecided(R, key+"|gets-the-batch-error", cc.Pos(), "complete() may receive a literal nil on some path; cannot decide which outcome it reports")
-		default:
-			c.Check(R, key+"|gets-the-batch-error", cc.Pos(), okSrc,
-				ifelse(okSrc, "complete receives prepare's error on the failure path and resolve's error otherwise", "complete() does not receive the error of prepare/resolve: waiting callers are told the update succeeded although it failed (or the reverse)"))
-		}
-		okOrder := true
-		for _, x := range append(append([]ssa.CallInstruction{}, m.ResolveCalls...), commits...) {
-			if Reachable(cc.(ssa.Instruction), x.(ssa.Instruction)) {
-				okOrder = false
-			}
-		}
-		c.Check(R, key+"|is-last", cc.Pos(), okOrder, ifelse(okOrder, "no commit/resolve after complete", "commit or resolve can run after complete(): the window was already reopened"))
-		for _, ret := range Returns(D) {
-			if !Reachable(cc.(ssa.Instruction), ret) {
-				continue
-			}
-			rr := c14RootSet(ret.Results[0])
-			same := len(rr) == len(roots)
-			for v := range rr {
-				if !roots[v] {
-					same = false
-				}
-			}
-			c.Check(R, key+"|main-returns-same-error", ret.Pos(), same,
-				ifelse(same, "the main caller returns the error it broadcast", "the main caller returns something else than the error it handed to complete()"))
-		}
-	}
-	// non-main: returns the received status error
-	n := 0
-	for _, ret := range Returns(D) {
-		if !reach(otherE.To, 0, ret, nil) {
-			continue
-		}
-		if reach(mainE.To, 0, ret, nil) {
-			c.Undecided(R, dn+"|non-main-returns-status-err", ret.Pos(), "a return shared by the main and the waiting branch: shape not recognised")
-			continue
-		}
-		n++
-		ok := c14RecvField(ret.Results[0], m.AssignCall) == "err"
-		c.Check(R, dn+"|non-main-returns-status-err", ret.Pos(), ok,
-			ifelse(ok, "a waiting caller returns the err field of the status it received", "a waiting caller does not return the error broadcast by the main caller: a failed batch is reported as success"))
-	}
-	if n == 0 {
-		c.Violation(R, dn+"|non-main-returns-status-err", D.Pos(), "no return on the main==false edge")
-	}
-}
-
-// c14Lin evaluates v as a*L+b where L = len(<load of Merge.items>).
-func c14Lin(v ssa.Value, depth int) (a, b int64, ok bool) {
-	if depth > 6 {
-		return 0, 0, false
-	}
-	rs := Roots(v)
-	if len(rs) != 1 {
-		return 0, 0, false
-	}
-	switch u := rs[0].(type) {
-	case *ssa.Const:
-		if k, isInt := constInt(u); isInt {
-			return 0, k, true
-		}
-	case *ssa.Call:
-		if CalleeName(u) == "builtin:len" {
-			x := u.Call.Args[0]
-			if c14IsLoadOfField(x, c14TMerge, "items") {
-				return 1, 0, true
-			}
-			for _, r := range Roots(x) {
-				if sl, isSl := r.(*ssa.Slice); isSl && sl.Max == nil && c14IsLoadOfField(sl.X, c14TMerge, "items") {
-					var lo, hi int64
-					hiA := int64(1)
-					if sl.Low != nil {
-						k, isInt := constInt(sl.Low)
-						if !isInt {
-							return 0, 0, false
-						}
-						lo = k
-					}
-					if sl.High != nil {
-						ha, hb, okH := c14Lin(sl.High, depth+1)
-						if !okH {
-							return 0, 0, false
-						}
-						hiA, hi = ha, hb
-					}
-					return hiA, hi - lo, len(Roots(x)) == 1
-				}
-			}
-		}
-	case *ssa.BinOp:
-		xa, xb, ok1 := c14Lin(u.X, depth+1)
-		ya, yb, ok2 := c14Lin(u.Y, depth+1)
-		if ok1 && ok2 {
-			switch u.Op {
-			case token.ADD:
-				return xa + ya, xb + yb, true
-			case token.SUB:
-				return xa - ya, xb - yb, true
-			}
-		}
-	}
-	return 0, 0, false
-}
-
-// c14TripCount returns the number of iterations of l as a*L+b for the
-// recognised counting-loop shapes (counter phi with step ±1 compared with a
-// loop-invariant bound; range over a slice of items).
-func c14TripCount(l *Loop) (a, b int64, ok bool, why string) {
-	if ranged, _, _, _, isRange := l.RangeIndex(); isRange {
-		// len(ranged): build via the len call the lowering already made
-		h := l.Header
-		ifi := h.Instrs[len(h.Instrs)-1].(*ssa.If)
-		ln := ifi.Cond.(*ssa.BinOp).Y
-		_ = ranged
-		a, b, ok = c14Lin(ln, 0)
-		return a, b, ok, "range loop"
-	}
-	h := l.Header
-	ifi, isIf := h.Instrs[len(h.Instrs)-1].(*ssa.If)
-	if !isIf {
-		return 0, 0, false, "loop header does not end in a condition"
-	}
-	cond, t, f := ifEdges(ifi)
-	bo, isBin := cond.(*ssa.BinOp)
-	if !isBin {
-		return 0, 0, false, "loop condition is not a comparison"
-	}
-	op := bo.Op
-	var phi *ssa.Phi
-	var bound ssa.Value
-	if p, isPhi := bo.X.(*ssa.Phi); isPhi && p.Block() == h {
-		phi, bound = p, bo.Y
-	} else if p, isPhi := bo.Y.(*ssa.Phi); isPhi && p.Block() == h {
-		phi, bound = p, bo.X
-		op = map[token.Token]token.Token{token.LSS: token.GTR, token.GTR: token.LSS, token.LEQ: token.GEQ, token.GEQ: token.LEQ, token.NEQ: token.NEQ, token.EQL: token.EQL}[op]
-	} else {
-		return 0, 0, false, "loop condition does not test a loop counter"
-	}
-	switch {
-	case l.Blocks[t.To] && !l.Blocks[f.To]:
-	case l.Blocks[f.To] && !l.Blocks[t.To]:
-		op = map[token.Token]token.Token{token.LSS: token.GEQ, token.GTR: token.LEQ, token.LEQ: token.GTR, token.GEQ: token.LSS, token.NEQ: token.EQL, token.EQL: token.NEQ}[op]
-	default:
-		return 0, 0, false, "loop condition does not separate body and exit"
-	}
-	var init ssa.Value
-	step := int64(0)
-	for i, e := range phi.Edges {
-		if !l.Blocks[h.Preds[i]] {
-			if init != nil {
-				return 0, 0, false, "counter has several initial values"
-			}
-			init = e
-			continue
-		}
-		nb, isBin := e.(*ssa.BinOp)
-		if !isBin {
-			return 0, 0, false, "counter update is not ±1"
-		}
-		k, isK := constInt(nb.Y)
-		if nb.X != ssa.Value(phi) || !isK || k != 1 || (nb.Op != token.ADD && nb.Op != token.SUB) {
-			return 0, 0, false, "counter update is not ±1"
-		}
-		s := int64(1)
-		if nb.Op == token.SUB {
-			s = -1
-		}
-		if step != 0 && step != s {
-			return 0, 0, false, "counter moves in both directions"
-		}
-		step = s
-	}
-	if init == nil || step == 0 {
-		return 0, 0, false, "counter shape not recognised"
-	}
-	ia, ib, ok1 := c14Lin(init, 0)
-	ba, bb, ok2 := c14Lin(bound, 0)
-	if !ok1 || !ok2 {
-		return 0, 0, false, "counter start/bound is not an affine function of len(items)"
-	}
-	switch {
-	case step == 1 && (op == token.LSS || op == token.NEQ):
-		return ba - ia, bb - ib, true, ""
-	case step == 1 && op == token.LEQ:
-		return ba - ia, bb - ib + 1, true, ""
-	case step == -1 && (op == token.GTR || op == token.NEQ):
-		return ia - ba, ib - bb, true, ""
-	case step == -1 && op == token.GEQ:
-		return ia - ba, ib - bb + 1, true, ""
-	}
-	return 0, 0, false, "comparison direction does not match the counter direction"
-}
-
-func c14R1Complete(c *Ctx, m *c14Merge) {
-	const R = "C14.R1.merge-protocol"
-	F := m.Complete
-	fn := FnName(F)
-	if len(F.Params) != 2 {
-		c.LostAnchor(R, fn+": (receiver, err) parameters")
-		return
-	}
-	errP := F.Params[1]
-	nilE, nonNilE, _ := NilTests(F, Aliases(errP))
-	if !c.Check(R, fn+"|tests-the-error", F.Pos(), len(nilE) > 0, "complete branches on err == nil") {
-		return
-	}
-	// success: close(m.status)
-	var closes []ssa.CallInstruction
-	for _, cl := range CallsTo(F, "builtin:close") {
-		if c14IsLoadOfField(cl.Common().Args[0], c14TMerge, "status") {
-			closes = append(closes, cl)
-		}
-	}
-	okClose := len(closes) > 0
-	for _, cl := range closes {
-		if !MustPass(cl.(ssa.Instruction), newCut().Edges(nilE...)) {
-			okClose = false
-		}
-	}
-	c.Check(R, fn+"|close-only-on-success", F.Pos(), okClose,
-		ifelse(okClose, "close(m.status) is reached only on the err==nil edge", "the status channel can be closed although the batch failed: waiting callers return nil for an update that was not applied"))
-	okAll := okClose
-	for _, e := range nilE {
-		if c14AnyReturnReachable(e.To, newCut().Calls(closes)) != nil {
-			okAll = false
-		}
-	}
-	c.Check(R, fn+"|close-on-every-success-path", F.Pos(), okAll,
-		ifelse(okAll, "on success every path closes the status channel", "a success path does not close the status channel: the waiting callers of this batch park forever"))
-	// classify sends
-	var failSends, mainSends []*ssa.Send
-	for _, s := range c14Sends(F) {
-		errVals, isLit := c14StructLitField(s.X, "err")
-		mainVals, _ := c14StructLitField(s.X, "main")
-		isMain := false
-		for _, v := range mainVals {
-			if b, ok := c14ConstBool(v); ok && b {
-				isMain = true
-			} else {
-				isLit = false
-			}
-		}
-		isFail := false
-		for _, v := range errVals {
-			if Aliases(errP)[v] {
-				isFail = true
-			}
-		}
-		switch {
-		case isLit && isMain && !isFail:
-			mainSends = append(mainSends, s)
-		case isLit && isFail && !isMain:
-			failSends = append(failSends, s)
-		default:
-			c.Undecided(R, fn+"|send", s.Pos(), "a send in complete() that is neither mergeStatus{err: err} nor mergeStatus{main: true}: shape not recognised")
-		}
-	}
-	// failure notices: exactly len(items)-1, on the old status channel, only on failure
-	loops := Loops(F)
-	if len(failSends) == 0 {
-		c.Violation(R, fn+"|failure-notices", F.Pos(), "complete() never sends the batch error to the waiting callers")
-	}
-	for i, s := range failSends {
-		key := fmt.Sprintf("%s|failure-notice#%d", fn, i+1)
-		okEdge := len(nonNilE) > 0 && MustPass(s, newCut().Edges(nonNilE...))
-		c.Check(R, key+"|only-on-failure", s.Pos(), okEdge, "the failure notice is sent only on the err!=nil edge")
-		okCh := c14IsLoadOfField(s.Chan, c14TMerge, "status")
-		c.Check(R, key+"|on-status-channel", s.Pos(), okCh, ifelse(okCh, "sent on m.status", "the failure notice is not sent on the batch's status channel"))
-		var in []*Loop
-		for _, l := range loops {
-			if l.Contains(s) {
-				in = append(in, l)
-			}
-		}
-		if len(in) != 1 {
-			c.Violation(R, key+"|count", s.Pos(), fmt.Sprintf("the failure notice is inside %d loops (expected one counting loop of len(items)-1 iterations): some waiting caller parks forever, or the main caller blocks on a send nobody receives", len(in)))
-			continue
-		}
-		l := in[0]
-		a, b, ok, why := c14TripCount(l)
-		if !ok {
-			c.Undecided(R, key+"|count", s.Pos(), "cannot determine the number of failure notices: "+why)
-			continue
-		}
-		// exactly one send per iteration
-		perIter := true
-		for _, be := range l.Backs {
-			_ = be
-		}
-		for _, succ := range l.Header.Succs {
-			if l.Blocks[succ] && reach(succ, 0, l.Header.Instrs[0], newCut().Instr(s)) {
-				perIter = false
-			}
-		}
-		okCount := a == 1 && b == -1 && perIter
-		c.Check(R, key+"|count", s.Pos(), okCount,
-			ifelse(okCount, "exactly len(items)-1 notices: one per waiting caller of the batch",
-				fmt.Sprintf("the loop sends %d*len(items)%+d notices (one per iteration: %v) instead of len(items)-1: a waiting caller parks forever, or the main caller blocks on a send nobody receives and the subject is wedged", a, b, perIter)))
-	}
-	// reopen the window and promote the pending batch
-	var reopen []ssa.Instruction
-	for _, s := range c14FieldStores(F, c14TMerge, "committed") {
-		if b, ok := c14ConstBool(s.Val); ok && !b {
-			reopen = append(reopen, s)
-		} else {
-			c.Violation(R, fn+"|reopens-window", s.Pos(), "complete() stores something else than false into committed")
-		}
-	}
-	okRe := len(reopen) > 0
-	for _, ret := range Returns(F) {
-		if ReachableFromEntry(ret) && !MustPass(ret, newCut().Instr(reopen...)) {
-			okRe = false
-		}
-	}
-	c.Check(R, fn+"|reopens-window", F.Pos(), okRe,
-		ifelse(okRe, "every path stores committed=false", "a path leaves complete() with committed still true: every later change goes to a pending batch that nobody will ever run"))
-	promo := func(dst, src string) (stores []ssa.Instruction, srcLoads []ssa.Instruction, ok bool) {
-		ok = true
-		for _, s := range c14FieldStores(F, c14TMerge, dst) {
-			if isNilConst(s.Val) {
-				continue
-			}
-			if !c14IsLoadOfField(s.Val, c14TMerge, src) {
-				ok = false
-			}
-			stores = append(stores, s)
-			for _, r := range Roots(s.Val) {
-				if in, isIn := r.(ssa.Instruction); isIn {
-					srcLoads = append(srcLoads, in)
-				}
-			}
-		}
-		if len(stores) == 0 {
-			ok = false
-		}
-		for _, ret := range Returns(F) {
-			if ReachableFromEntry(ret) && !MustPass(ret, newCut().Instr(stores...)) {
-				ok = false
-			}
-		}
-		return
-	}
-	clears := func(field string, after []ssa.Instruction) bool {
-		var cl []ssa.Instruction
-		for _, s := range c14FieldStores(F, c14TMerge, field) {
-			if !isNilConst(s.Val) {
-				return false
-			}
-			cl = append(cl, s)
-			for _, ld := range after {
-				if Reachable(s, ld) {
-					return false
-				}
-			}
-		}
-		if len(cl) == 0 {
-			return false
-		}
-		for _, ret := range Returns(F) {
-			if ReachableFromEntry(ret) && !MustPass(ret, newCut().Instr(cl...)) {
-				return false
-			}
-		}
-		return true
-	}
-	_, itemLoads, okI := promo("items", "pending")
-	c.Check(R, fn+"|promotes-pending-items", F.Pos(), okI, ifelse(okI, "every path stores m.items = m.pending", "the pending items are not promoted to the next batch on every path: changes assigned while the batch ran are lost"))
-	statusStores, statusLoads, okS := promo("status", "pendingStatus")
-	c.Check(R, fn+"|promotes-pending-status", F.Pos(), okS, ifelse(okS, "every path stores m.status = m.pendingStatus", "the pending status channel is not promoted with its items: the callers of the next batch wait on a channel nobody serves"))
-	okC := clears("pending", itemLoads) && clears("pendingStatus", statusLoads)
-	c.Check(R, fn+"|clears-pending", F.Pos(), okC, ifelse(okC, "pending and pendingStatus are reset to nil after they were promoted, on every path", "the pending batch is not cleared after promotion (or cleared before it is read): a batch is run twice or dropped"))
-	// one main token for the promoted batch
-	promoted := map[ssa.Value]bool{}
-	for _, s := range statusStores {
-		for a := range Aliases(s.(*ssa.Store).Val) {
-			promoted[a] = true
-		}
-	}
-	for _, ld := range c14FieldLoads(F, c14TMerge, "status") {
-		if len(statusStores) > 0 && MustPass(ld, newCut().Instr(statusStores...)) {
-			promoted[ld] = true
-		}
-	}
-	pNil, pNonNil, _ := NilTests(F, promoted)
-	okTok := len(mainSends) == 1 && len(pNonNil) > 0
-	for _, s := range mainSends {
-		if !promoted[s.Chan] || !MustPass(s, newCut().Edges(pNonNil...)) || !MustPass(s, newCut().Instr(statusStores...)) || Reachable(s, s) {
-			okTok = false
-		}
-	}
-	if okTok {
-		cu := newCut().Edges(pNil...)
-		for _, s := range mainSends {
-			cu.Instr(s)
-		}
-		for _, ret := range Returns(F) {
-			if ReachableFromEntry(ret) && !MustPass(ret, cu) {
-				okTok = false
-			}
-		}
-	}
-	pos := F.Pos()
-	if len(mainSends) > 0 {
-		pos = mainSends[0].Pos()
-	}
-	c.Check(R, fn+"|one-main-token-for-promoted-batch", pos, okTok,
-		ifelse(okTok, "exactly when a pending batch was promoted, one mergeStatus{main:true} is sent on its channel", "the promoted batch does not receive exactly one main token (none: its callers park forever; two: two updaters of one index run concurrently)"))
-}
-
-func c14R1Assign(c *Ctx, m *c14Merge) {
-	const R = "C14.R1.merge-protocol"
-	F := m.Assign
-	fn := FnName(F)
-	if len(F.Params) != 2 {
-		c.LostAnchor(R, fn+": (receiver, item) parameters")
-		return
-	}
-	item := F.Params[1]
-	cl := map[ssa.Value]bool{}
-	for _, ld := range c14FieldLoads(F, c14TMerge, "committed") {
-		cl[ld] = true
-	}
-	te, fe := BoolTests(F, cl)
-	if !c.Check(R, fn+"|tests-committed", F.Pos(), len(te) > 0, "assign branches on m.committed") {
-		return
-	}
-	appendStores := func(field string) (out []ssa.Instruction, ok bool) {
-		ok = true
-		for _, s := range c14FieldStores(F, c14TMerge, field) {
-			call, isCall := s.Val.(*ssa.Call)
-			if !isCall || CalleeName(call) != "builtin:append" {
-				ok = false
-				continue
-			}
-			if !c14IsLoadOfField(call.Call.Args[0], c14TMerge, field) || !derivesFromAny(call.Call.Args[1], map[ssa.Value]bool{item: true}, 0) {
-				ok = false
-			}
-			out = append(out, s)
-		}
-		return out, ok && len(out) > 0
-	}
-	itemStores, okI := appendStores("items")
-	pendStores, okP := appendStores("pending")
-	okOpen := okI
-	for _, s := range itemStores {
-		if !MustPass(s, newCut().Edges(fe...)) {
-			okOpen = false
-		}
-	}
-	for _, e := range fe {
-		if c14AnyReturnReachable(e.To, newCut().Instr(itemStores...)) != nil {
-			okOpen = false
-		}
-	}
-	c.Check(R, fn+"|items-only-while-open", F.Pos(), okOpen,
-		ifelse(okOpen, "m.items = append(m.items, item) happens exactly on the committed==false edge", "assign can append to (or skip) m.items while the batch is committed: the change is missing from the slice being resolved, or the running batch's slice is mutated under the resolver"))
-	okPend := okP
-	for _, s := range pendStores {
-		if !MustPass(s, newCut().Edges(te...)) {
-			okPend = false
-		}
-	}
-	for _, e := range te {
-		if c14AnyReturnReachable(e.To, newCut().Instr(pendStores...)) != nil {
-			okPend = false
-		}
-	}
-	c.Check(R, fn+"|pending-while-committed", F.Pos(), okPend,
-		ifelse(okPend, "m.pending = append(m.pending, item) happens exactly on the committed==true edge", "a change arriving while a batch is running is not queued in m.pending on every path: it is lost"))
-	// returned channel matches the batch the item joined
-	okRet := true
-	for _, a := range RetAtoms(F, 0) {
-		if !ReachableFromEntry(a.Ret) {
-			continue
-		}
-		fromT, fromF := false, false
-		for _, e := range te {
-			if reach(e.To, 0, a.Ret, nil) {
-				fromT = true
-			}
-		}
-		for _, e := range fe {
-			if reach(e.To, 0, a.Ret, nil) {
-				fromF = true
-			}
-		}
-		switch {
-		case fromT && !fromF:
-			okRet = okRet && c14IsLoadOfField(a.Val, c14TMerge, "pendingStatus")
-		case fromF && !fromT:
-			okRet = okRet && c14IsLoadOfField(a.Val, c14TMerge, "status")
-		default:
-			okRet = false
-		}
-	}
-	c.Check(R, fn+"|returns-channel-of-joined-batch", F.Pos(), okRet,
-		ifelse(okRet, "the committed edge returns m.pendingStatus, the open edge returns m.status", "assign returns the status channel of a batch the item did not join: the caller gets the verdict of the wrong batch"))
-	// channel creation and the single main token
-	mk := func(field string, side []Edge) (ok bool, makes []*ssa.MakeChan) {
-		lds := map[ssa.Value]bool{}
-		for _, ld := range c14FieldLoads(F, c14TMerge, field) {
-			lds[ld] = true
-		}
-		nilE, _, _ := NilTests(F, lds)
-		ok = true
-		n := 0
-		for _, s := range c14FieldStores(F, c14TMerge, field) {
-			mc, isMk := s.Val.(*ssa.MakeChan)
-			if !isMk {
-				ok = false
-				continue
-			}
-			n++
-			makes = append(makes, mc)
-			if len(nilE) == 0 || !MustPass(s, newCut().Edges(nilE...)) || !MustPass(s, newCut().Edges(side...)) {
-				ok = false
-			}
-		}
-		return ok && n > 0, makes
-	}
-	okMkS, makesS := mk("status", fe)
-	c.Check(R, fn+"|status-created-once", F.Pos(), okMkS,
-		ifelse(okMkS, "m.status is created only when it is nil, on the open edge", "m.status can be replaced while callers already wait on it: they park forever"))
-	okMkP, _ := mk("pendingStatus", te)
-	c.Check(R, fn+"|pending-status-created-once", F.Pos(), okMkP,
-		ifelse(okMkP, "m.pendingStatus is created only when it is nil, on the committed edge", "m.pendingStatus can be replaced while callers already wait on it: they park forever"))
-	okBuf := len(makesS) > 0
-	for _, mc := range makesS {
-		if k, ok := constInt(mc.Size); !ok || k < 1 {
-			okBuf = false
-		}
-	}
-	c.Check(R, fn+"|status-buffered", F.Pos(), okBuf,
-		ifelse(okBuf, "the status channel has capacity >= 1 for the main token sent under the lock", "the status channel is unbuffered: assign blocks on sending the main token while holding the lock (deadlock on first use)"))
-	// main token: exactly on creation of m.status
-	var mainSends []ssa.Instruction
-	okTok := true
-	stLoads := map[ssa.Value]bool{}
-	for _, ld := range c14FieldLoads(F, c14TMerge, "status") {
-		stLoads[ld] = true
-	}
-	for _, mc := range makesS {
-		stLoads[mc] = true
-	}
-	stNil, _, _ := NilTests(F, stLoads)
-	for _, s := range c14Sends(F) {
-		mainVals, isLit := c14StructLitField(s.X, "main")
-		isMain := false
-		for _, v := range mainVals {
-			if b, ok := c14ConstBool(v); ok && b {
-				isMain = true
-			}
-		}
-		if !isLit || !isMain {
-			c.Undecided(R, fn+"|send", s.Pos(), "a send in assign() that is not mergeStatus{main: true}: shape not recognised")
-			continue
-		}
-		mainSends = append(mainSends, s)
-		if !stLoads[s.Chan] || len(stNil) == 0 || !MustPass(s, newCut().Edges(stNil...)) || !MustPass(s, newCut().Edges(fe...)) || Reachable(s, s) {
-			okTok = false
-		}
-	}
-	okTok = okTok && len(mainSends) > 0
-	for _, e := range stNil {
-		if c14AnyReturnReachable(e.To, newCut().Instr(mainSends...)) != nil {
-			okTok = false
-		}
-	}
-	c.Check(R, fn+"|one-main-token-per-new-batch", F.Pos(), okTok,
-		ifelse(okTok, "exactly when assign creates m.status it sends one mergeStatus{main:true}", "a new batch does not get exactly one main token (none: all its callers park forever; more: two updaters of one index run concurrently and one overwrites the other)"))
-}
-
-func c14R1Commit(c *Ctx, m *c14Merge) {
-	const R = "C14.R1.merge-protocol"
-	F := m.Commit
-	fn := FnName(F)
-	var sets []ssa.Instruction
-	ok := true
-	for _, s := range c14FieldStores(F, c14TMerge, "committed") {
-		if b, isB := c14ConstBool(s.Val); isB && b {
-			sets = append(sets, s)
-		} else {
-			ok = false
-		}
-	}
-	ok = ok && len(sets) > 0
-	for _, ret := range Returns(F) {
-		if ReachableFromEntry(ret) && !MustPass(ret, newCut().Instr(sets...)) {
-			ok = false
-		}
-	}
-	c.Check(R, fn+"|closes-window", F.Pos(), ok,
-		ifelse(ok, "every path stores committed=true", "commit() does not close the assignment window on every path: assign keeps appending to the slice being resolved"))
-	okRet := true
-	n := 0
-	for _, a := range RetAtoms(F, 0) {
-		if !ReachableFromEntry(a.Ret) {
-			continue
-		}
-		n++
-		if !c14IsLoadOfField(a.Val, c14TMerge, "items") {
-			okRet = false
-		}
-	}
-	c.Check(R, fn+"|returns-items", F.Pos(), okRet && n > 0,
-		ifelse(okRet && n > 0, "commit returns m.items", "commit() does not return the batch's items"))
-}
-
-// ---------- R2 ----------
-
-func c14R2(c *Ctx, ms []*c14Merge) {
-	const R = "C14.R2.lock-discipline"
-	c.Expect(R, 22)
-	mergeFields := []string{"committed", "items", "status", "pending", "pendingStatus"}
-	const reason = "complete() reads m.items/m.status before locking: while committed==true (set by commit() before complete() is reached) assign() writes neither, so there is no concurrent writer; the premise is proved by the |premise obligations"
-	exempt := map[string]string{}
-	for _, m := range ms {
-		exempt[FnName(m.Complete)] = reason
-		if o := m.Complete.Origin(); o != nil {
-			exempt[FnName(o)] = reason
-		}
-	}
-	if !c14HasField(c.P, c14PkgSync, "Pool", "items") || !c14HasField(c.P, c14PkgSync, "Pool", "lock") || !c14HasField(c.P, c14PkgSync, "poolItem", "refCount") {
-		c.LostAnchor(R, "~/internal/syncutil.Pool.{items,lock} / poolItem.refCount")
-		return
-	}
-	LockCheck(c, R, []GuardSpec{
-		{Type: c14TMerge, Fields: mergeFields, Lock: "lock", Exempt: exempt},
-		{Type: c14TPool, Fields: []string{"items"}, Lock: "lock"},
-	}, []string{c14PkgSync})
-
-	fields := map[string]bool{}
-	for _, f := range mergeFields {
-		fields[f] = true
-	}
-	for _, m := range ms {
-		F := m.Complete
-		fn := FnName(F)
-		// the exception, checked locally: writes hold the lock; unlocked reads are
-		// only of items/status and happen before the window is reopened
-		h := heldAt(F, heldSet{})
-		var reopen []*ssa.Store
-		for _, s := range c14FieldStores(F, c14TMerge, "committed") {
-			reopen = append(reopen, s)
-		}
-		okW, okR := true, true
-		detail := ""
-		for _, a := range fieldAccesses(F, c14TMerge, fields) {
-			lp := accessPath(a.Base) + ".lock"
-			if h[a.At][lp] >= modeW {
-				continue
-			}
-			if a.Mode == modeW {
-				okW = false
-				detail = fmt.Sprintf("write of Merge.%s at %s without m.lock", a.Field, c.P.Pos(a.At.Pos()))
-				continue
-			}
-			if a.Field != "items" && a.Field != "status" {
-				okR = false
-				detail = fmt.Sprintf("unlocked read of Merge.%s at %s", a.Field, c.P.Pos(a.At.Pos()))
-			}
-			for _, s := range reopen {
-				if Reachable(s, a.At) {
-					okR = false
-					detail = fmt.Sprintf("unlocked read of Merge.%s at %s after the window was reopened", a.Field, c.P.Pos(a.At.Pos()))
-				}
-			}
-		}
-		c.Check(R, fn+"|exception:writes-hold-lock", F.Pos(), okW, ifelse(okW, "every write of a guarded Merge field in complete() holds m.lock", detail+" — assign() can run concurrently (data race, lost batch)"))
-		c.Check(R, fn+"|exception:unlocked-reads-only-items-status-before-reopen", F.Pos(), okR,
-			ifelse(okR, "the only unlocked accesses are reads of m.items/m.status before committed is reset", detail+" — assign() may write it concurrently (data race)"))
-		// premise 1: committed==true whenever complete() runs
-		okP := len(m.CompleteCalls) > 0
-		var commits []ssa.CallInstruction
-		for _, call := range Calls(m.Do, func(string) bool { return true }) {
-			if StaticCallee(call) == m.Commit {
-				commits = append(commits, call)
-			}
-		}
-		for _, cc := range m.CompleteCalls {
-			if !MustPass(cc.(ssa.Instruction), newCut().Calls(commits)) {
-				okP = false
-			}
-		}
-		c.Check(R, FnName(m.Do)+"|premise:commit-precedes-complete", m.Do.Pos(), okP,
-			ifelse(okP, "every path to complete() has passed commit() (committed==true)", "complete() can run without a preceding commit(): its unlocked reads of m.items/m.status race with assign()"))
-	}
-	// premise 2: writers of items/status are assign (on the open edge, see R1) and complete only
-	allowed := map[*ssa.Function]bool{}
-	for _, m := range ms {
-		allowed[m.Assign], allowed[m.Complete] = true, true
-		if o := m.Assign.Origin(); o != nil {
-			allowed[o] = true
-		}
-		if o := m.Complete.Origin(); o != nil {
-			allowed[o] = true
-		}
-	}
-	okW := true
-	detail := "m.items / m.status are written only by assign() (on the committed==false edge, R1) and complete() (under the lock)"
-	for _, f := range c.P.FuncsOfPkg(c14PkgSync) {
-		if allowed[f] {
-			continue
-		}
-		if len(c14FieldStores(f, c14TMerge, "items"))+len(c14FieldStores(f, c14TMerge, "status")) > 0 {
-			okW = false
-			detail = FnName(f) + " writes Merge.items/status: the exception for complete()'s unlocked reads no longer holds"
-		}
-	}
-	c.Check(R, "~/internal/syncutil|premise:writers-of-items-status", token.NoPos, okW, detail)
-
-	// poolItem.refCount is guarded by the pool's lock, also inside the release closure
-	gen := c.P.Fn(c14PkgSync, "Pool.Get")
-	if gen == nil {
-		c.LostAnchor(R, "~/internal/syncutil.Pool.Get")
-		return
-	}
-	n := 0
-	for _, G := range c.P.Instances(gen) {
-		for _, f := range append([]*ssa.Function{G}, Anons(G)...) {
-			var accs []ssa.Instruction
-			for _, fa := range c14FieldAddrs(f, c14TPoolItem, "refCount") {
-				for _, r := range *fa.Referrers() {
-					if in, ok := r.(ssa.Instruction); ok {
-						if _, dbg := r.(*ssa.DebugRef); !dbg {
-							accs = append(accs, in)
-						}
-					}
-				}
-			}
-			if len(accs) == 0 {
-				continue
-			}
-			n++
-			h := heldAt(f, heldSet{})
-			ok := true
-			for _, at := range accs {
-				held := false
-				for lp, mode := range h[at] {
-					if mode >= modeW && strings.HasSuffix(lp, ".lock") && (strings.HasPrefix(lp, "P:"+G.Params[0].Name()) || strings.HasPrefix(lp, "FV:"+G.Params[0].Name())) {
-						held = true
-					}
-				}
-				if !held {
-					ok = false
-				}
-			}
-			c.Check(R, FnName(f)+"|"+c14TPoolItem+".refCount|W", f.Pos(), ok,
-				ifelse(ok, "every access of refCount holds the pool's lock", "refCount is accessed without the pool's lock: the per-tag Merge can be dropped from the pool while another updater still uses it (two Merge objects for one referrers tag: updates are no longer serialised)"))
-		}
-	}
-	if n < 2 {
-		c.LostAnchor(R, "refCount accesses in Pool.Get and its release closure")
-	}
-	// other functions touching refCount
-	for _, f := range c.P.FuncsOfPkg(c14PkgSync) {
-		if len(c14FieldAddrs(f, c14TPoolItem, "refCount")) == 0 {
-			continue
-		}
-		root := f
-		for root.Parent() != nil {
-			root = root.Parent()
-		}
-		if o := root.Origin(); o != nil {
-			root = o
-		}
-		if root != gen {
-			c.Violation(R, FnName(f)+"|"+c14TPoolItem+".refCount|unclassified", f.Pos(), "refCount is accessed outside Pool.Get and its release closure: not covered by the confirmed lock discipline")
-		}
-	}
-}
-
-// ---------- R3 ----------
+// ---------- R3 helpers ----------
 
 func c14OriginIs(f, gen *ssa.Function) bool {
 	if f == nil || gen == nil {
@@ -1439,573 +353,12 @@ func c14ParamOf(v ssa.Value, fn *ssa.Function) *ssa.Parameter {
 	return nil
 }
 
-type c14Upd struct {
-	U               *ssa.Function
-	DoCall, GetCall ssa.CallInstruction
-	TagCall         *ssa.Call
-	TagFn           *ssa.Function
-	TagVal          ssa.Value
-	TagCell         *ssa.Alloc
-	Prep, Upd       *ssa.Function
-}
-
-// isTag: v denotes the referrers tag computed in U (in U itself or inside one
-// of its closures through the captured cell).
-func (u *c14Upd) isTag(v ssa.Value) bool {
-	v = strip(v)
-	if SameValue(v, u.TagVal) {
-		return true
-	}
-	if u.TagCell != nil {
-		if a := c14FreeCell(v); a == u.TagCell {
-			return true
-		}
-	}
-	return false
-}
-
-func c14R3(c *Ctx) {
-	const R = "C14.R3.serialised-rmw"
-	c.Expect(R, 20)
-	doGen := c.P.Fn(c14PkgSync, "Merge.Do")
-	getGen := c.P.Fn(c14PkgSync, "Pool.Get")
-	if doGen == nil || getGen == nil {
-		c.LostAnchor(R, "~/internal/syncutil.Merge.Do / Pool.Get")
-		return
-	}
-	if !c14HasField(c.P, c14PkgRemote, "Repository", "referrersMergePool") || !c14HasField(c.P, c14PkgRemote, "Repository", "SkipReferrersGC") {
-		c.LostAnchor(R, "~/registry/remote.Repository.{referrersMergePool,SkipReferrersGC}")
-		return
-	}
-	// every user of Merge.Do in the module
-	var us []*c14Upd
-	var fns []*ssa.Function
-	for f := range c.P.All {
-		if inModule(f) && len(f.Blocks) > 0 && fnPkgPath(f) != pkgPath(c14PkgSync) {
-			fns = append(fns, f)
-		}
-	}
-	sort.Slice(fns, func(i, j int) bool { return fns[i].String() < fns[j].String() })
-	for _, f := range fns {
-		for _, call := range Calls(f, func(string) bool { return true }) {
-			if c14OriginIs(StaticCallee(call), doGen) {
-				us = append(us, &c14Upd{U: f, DoCall: call})
-			}
-		}
-	}
-	if len(us) == 0 {
-		c.LostAnchor(R, "a caller of syncutil.Merge.Do in the module (the referrers index updater)")
-		return
-	}
-	for _, u := range us {
-		if fnPkgPath(u.U) != pkgPath(c14PkgRemote) {
-			c.Violation(R, FnName(u.U)+"|merge-user", u.DoCall.Pos(), "unclassified user of syncutil.Merge.Do outside registry/remote")
-			continue
-		}
-		c14R3Updater(c, u, getGen)
-	}
-	c14R3Callers(c, us)
-	c14R3TagInventory(c, us)
-}
-
-func c14R3Updater(c *Ctx, u *c14Upd, getGen *ssa.Function) {
-	const R = "C14.R3.serialised-rmw"
-	U := u.U
-	un := FnName(U)
-	args := u.DoCall.Common().Args
-	if len(args) != 4 {
-		c.LostAnchor(R, un+": Merge.Do(recv, item, prepare, resolve)")
-		return
-	}
-	// the Merge object comes from the repository-wide pool, keyed by the tag
-	ok := false
-	for _, r := range Roots(args[0]) {
-		if ex, isEx := r.(*ssa.Extract); isEx && ex.Index == 0 {
-			if call, isCall := ex.Tuple.(*ssa.Call); isCall && c14OriginIs(StaticCallee(call), getGen) && len(Roots(args[0])) == 1 {
-				u.GetCall = call
-				ok = true
-			}
-		}
-	}
-	if !c.Check(R, un+"|merge-from-pool", u.DoCall.Pos(), ok,
-		ifelse(ok, "the Merge object is the one returned by Pool.Get", "the Merge object does not come from the per-tag pool: concurrent updaters of one index do not share it (unserialised read-modify-write: lost update)")) {
-		return
-	}
-	gargs := u.GetCall.Common().Args
-	fa, isFA := gargs[0].(*ssa.FieldAddr)
-	okPool := isFA && fieldName(fa.X.Type(), fa.Field) == "~/registry/remote.Repository.referrersMergePool"
-	c.Check(R, un+"|pool-is-repository-wide", u.GetCall.Pos(), okPool,
-		ifelse(okPool, "the pool is the Repository.referrersMergePool field", "the pool is not the repository-wide Repository.referrersMergePool: updaters on the same Repository do not meet in one Merge"))
-	// key = tag = tagFn(subject)
-	key := strip(gargs[1])
-	kr := Roots(key)
-	if len(kr) == 1 {
-		if ex, isEx := kr[0].(*ssa.Extract); isEx && ex.Index == 0 {
-			if call, isCall := ex.Tuple.(*ssa.Call); isCall && StaticCallee(call) != nil && inModule(StaticCallee(call)) {
-				u.TagCall, u.TagFn, u.TagVal = call, StaticCallee(call), ex
-			}
-		}
-	}
-	if u.TagCall == nil {
-		c.Undecided(R, un+"|pool-key-is-referrers-tag", u.GetCall.Pos(), "cannot resolve the pool key to the result of a tag-building function")
-		return
-	}
-	if a := cellOf(key); a != nil {
-		u.TagCell = a
-	}
-	okSubj := len(u.TagCall.Call.Args) == 1 && c14ParamOf(u.TagCall.Call.Args[0], U) != nil
-	c.Check(R, un+"|pool-key-is-referrers-tag", u.GetCall.Pos(), okSubj,
-		ifelse(okSubj, "the pool key is "+FnName(u.TagFn)+"(subject parameter)", "the pool key is not the referrers tag of the subject being updated: updaters of one index are not serialised with each other"))
-	// the entry is not released before Do returns
-	okRel := true
-	if done := ResultOf(u.GetCall, 1); done != nil {
-		for a := range Aliases(done) {
-			for _, r := range *a.Referrers() {
-				if call, isCall := r.(*ssa.Call); isCall && call.Call.Value == a && (Reachable(call, u.DoCall.(ssa.Instruction)) || call == u.DoCall) {
-					okRel = false
-				}
-			}
-		}
-	}
-	c.Check(R, un+"|no-release-before-do", u.DoCall.Pos(), okRel,
-		ifelse(okRel, "the pool entry is not released on any path before Merge.Do", "the pool entry can be released before Merge.Do runs: the pool forgets the Merge while it is in use and the next updater gets a fresh one (two concurrent read-modify-write cycles)"))
-	// closures
-	pm, ok1 := args[2].(*ssa.MakeClosure)
-	um, ok2 := args[3].(*ssa.MakeClosure)
-	if !ok1 || !ok2 {
-		c.Undecided(R, un+"|prepare-update-closures", u.DoCall.Pos(), "prepare/update are not function literals of the updater: shape not recognised")
-		return
-	}
-	u.Prep, u.Upd = pm.Fn.(*ssa.Function), um.Fn.(*ssa.Function)
-	P, Up := u.Prep, u.Upd
-	pn, upn := FnName(P), FnName(Up)
-	// tag cell is written once
-	if u.TagCell != nil {
-		sts := c14CellStores(u.TagCell)
-		okT := len(sts) == 1 && SameValue(sts[0].Val, u.TagVal)
-		c.Check(R, un+"|tag-fixed", u.TagCall.Pos(), okT, ifelse(okT, "the referrers tag variable is assigned once", "the referrers tag variable is reassigned: fetch, push and pool key may name different tags"))
-	}
-	// prepare: fetch by tag, publish into the shared cells
-	var fetches []ssa.CallInstruction
-	for _, call := range Calls(P, func(n string) bool { return n != "fmt.Errorf" }) {
-		for _, a := range call.Common().Args {
-			if u.isTag(a) {
-				fetches = append(fetches, call)
-				break
-			}
-		}
-	}
-	if len(fetches) != 1 {
-		c.Violation(R, pn+"|fetches-index-by-tag", P.Pos(), fmt.Sprintf("prepare makes %d calls with the referrers tag (expected exactly the fetch of the current index)", len(fetches)))
-		return
-	}
-	fetch := fetches[0]
-	okF := CalleeName(fetch) == "(*~/registry/remote.Repository).referrersFromIndex"
-	if !okF {
-		c.Undecided(R, pn+"|fetches-index-by-tag", fetch.Pos(), "prepare passes the tag to "+CalleeName(fetch)+", not the confirmed index reader referrersFromIndex: classify it")
-	} else {
-		c.OK(R, pn+"|fetches-index-by-tag", fetch.Pos(), "prepare reads the index through referrersFromIndex(ctx, tag)")
-	}
-	rf := ErrFlow(fetch, ErrFlowOpts{Tolerated: []string{"~/errdef.ErrNotFound"}})
-	c.Check(R, pn+"|fetch-error-surfaces", fetch.Pos(), rf.OK, ifelse(rf.OK, rf.How, "a failed read of the old index (other than not-found) is swallowed: the update would start from an empty list and drop every existing referrer. "+rf.Detail))
-	fetched := map[ssa.Value]bool{fetch.Value(): true}
-	var cellRefs, cellDesc *ssa.Alloc
-	var pubStores []ssa.Instruction
-	for _, fv := range P.FreeVars {
-		for _, r := range *fv.Referrers() {
-			s, isStore := r.(*ssa.Store)
-			if !isStore || s.Addr != ssa.Value(fv) {
-				continue
-			}
-			cell := c14FreeVarAlloc(fv)
-			if cell == nil {
-				continue
-			}
-			src := s.Val
-			if a, isAlloc := src.(*ssa.Alloc); isAlloc {
-				// &indexDesc: the local that received the fetched descriptor
-				okSrc := false
-				for _, st := range storesTo(a) {
-					if c14Derives(st.Val, fetched, 0) {
-						okSrc = true
-					}
-				}
-				if okSrc {
-					cellDesc = cell
-					pubStores = append(pubStores, s)
-				}
-				continue
-			}
-			if c14Derives(src, fetched, 0) {
-				if _, isSlice := src.Type().Underlying().(*types.Slice); isSlice {
-					cellRefs = cell
-					pubStores = append(pubStores, s)
-				}
-			}
-		}
-	}
-	if !c.Check(R, pn+"|publishes-fetched-state", P.Pos(), cellRefs != nil && cellDesc != nil,
-		ifelse(cellRefs != nil && cellDesc != nil, "prepare stores the fetched referrers list and index descriptor into variables shared with update", "prepare does not hand the fetched referrers list / index descriptor to update")) {
-		return
-	}
-	if e := ErrOf(fetch); e != nil {
-		ne, _, _ := NilTests(P, Aliases(e))
-		okPub := len(ne) > 0
-		for _, s := range pubStores {
-			if !MustPass(s, newCut().Edges(ne...)) {
-				okPub = false
-			}
-		}
-		c.Check(R, pn+"|publishes-only-on-success", P.Pos(), okPub, ifelse(okPub, "the shared variables are set only on the nil-error edge of the fetch", "the shared variables can be set from a failed fetch"))
-	}
-	okOnly := true
-	for _, cell := range []*ssa.Alloc{cellRefs, cellDesc} {
-		for _, s := range c14CellStores(cell) {
-			if s.Parent() != P {
-				okOnly = false
-			}
-		}
-	}
-	c.Check(R, un+"|shared-state-written-only-by-prepare", U.Pos(), okOnly, ifelse(okOnly, "only prepare writes oldReferrers/oldIndexDesc", "oldReferrers/oldIndexDesc are also written outside prepare: update may work from a list that is not the one just fetched"))
-
-	// update
-	isCellLoad := func(v ssa.Value, cell *ssa.Alloc) bool { return c14FreeCell(strip(v)) == cell }
-	var apply ssa.CallInstruction
-	for _, call := range Calls(Up, func(string) bool { return true }) {
-		hasOld, hasBatch := false, false
-		for _, a := range call.Common().Args {
-			if isCellLoad(a, cellRefs) {
-				hasOld = true
-			}
-			if len(Up.Params) == 1 && a == ssa.Value(Up.Params[0]) {
-				hasBatch = true
-			}
-		}
-		if hasOld && hasBatch && StaticCallee(call) != nil {
-			apply = call
-		}
-	}
-	if !c.Check(R, upn+"|applies-batch-to-fetched-list", Up.Pos(), apply != nil,
-		ifelse(apply != nil, "update computes the new list from (the list fetched by prepare, the committed batch)", "update does not combine the list fetched by prepare with the whole committed batch: batched changes are lost")) {
-		return
-	}
-	applied := map[ssa.Value]bool{apply.Value(): true}
-	newList := ResultOf(apply, 0)
-	applyErr := ErrOf(apply)
-	var sentinel string
-	if applyErr != nil {
-		al := Aliases(applyErr)
-		for _, i := range Ifs(Up) {
-			cond, _, _ := ifEdges(i)
-			switch x := cond.(type) {
-			case *ssa.BinOp:
-				if al[x.X] && sentinelName(x.Y) != "" {
-					sentinel = sentinelName(x.Y)
-				} else if al[x.Y] && sentinelName(x.X) != "" {
-					sentinel = sentinelName(x.X)
-				}
-			case *ssa.Call:
-				if CalleeName(x) == "errors.Is" && al[x.Call.Args[0]] {
-					sentinel = sentinelName(x.Call.Args[1])
-				}
-			}
-		}
-	}
-	var tol []string
-	if sentinel != "" {
-		tol = []string{sentinel}
-	}
-	ra := ErrFlow(apply, ErrFlowOpts{Tolerated: tol})
-	c.Check(R, upn+"|apply-error-surfaces", apply.Pos(), ra.OK, ifelse(ra.OK, ra.How, ra.Detail))
-	var tolE []Edge
-	if applyErr != nil {
-		tolE = toleratedEdges(Up, Aliases(applyErr), tol)
-	}
-	var pushes, deletes []ssa.CallInstruction
-	for _, call := range Calls(Up, func(n string) bool { return n != "fmt.Errorf" }) {
-		for _, a := range call.Common().Args {
-			if u.isTag(a) {
-				pushes = append(pushes, call)
-				break
-			}
-		}
-		for _, a := range call.Common().Args {
-			if d, isDeref := a.(*ssa.UnOp); isDeref && d.Op == token.MUL && isCellLoad(d.X, cellDesc) {
-				deletes = append(deletes, call)
-				break
-			}
-		}
-	}
-	okKinds := len(pushes) > 0 && len(deletes) > 0
-	for _, p := range pushes {
-		if CalleeName(p) != "(*~/registry/remote.manifestStore).push" {
-			c.Undecided(R, upn+"|effects-classified", p.Pos(), "update passes the referrers tag to "+CalleeName(p)+": not the confirmed index push, classify it")
-			okKinds = false
-		}
-	}
-	for _, d := range deletes {
-		if CalleeName(d) != "(*~/registry/remote.Repository).delete" {
-			c.Undecided(R, upn+"|effects-classified", d.Pos(), "update passes the old index descriptor to "+CalleeName(d)+": not the confirmed delete, classify it")
-			okKinds = false
-		}
-	}
-	if !c.Check(R, upn+"|effects-classified", Up.Pos(), okKinds, ifelse(okKinds, "update pushes the new index under the tag and deletes the old index descriptor", "update lacks the push of the new index under the referrers tag or the delete of the old index")) {
-		return
-	}
-	toI := func(cs []ssa.CallInstruction) []ssa.Instruction {
-		var o []ssa.Instruction
-		for _, x := range cs {
-			o = append(o, x.(ssa.Instruction))
-		}
-		return o
-	}
-	// pushed content derives from the applied list
-	okContent := true
-	for _, p := range pushes {
-		d := false
-		for _, a := range p.Common().Args {
-			if !u.isTag(a) && c14Derives(a, applied, 0) {
-				d = true
-			}
-		}
-		okContent = okContent && d
-	}
-	c.Check(R, upn+"|pushes-the-applied-list", pushes[0].Pos(), okContent, ifelse(okContent, "the pushed index is generated from the list returned by the apply step", "the index pushed under the tag is not generated from the updated list"))
-	// no-update sentinel: nothing is pushed or deleted
-	okNo := len(tolE) > 0
-	for _, e := range tolE {
-		for _, x := range append(toI(pushes), toI(deletes)...) {
-			if reach(e.To, 0, x, nil) {
-				okNo = false
-			}
-		}
-	}
-	c.Check(R, upn+"|no-update-leaves-index-alone", apply.Pos(), okNo,
-		ifelse(okNo, "on "+sentinel+" neither push nor delete is reachable", "when the apply step reports that nothing changed, update can still delete (or re-push) the index: the unchanged, still current index is deleted and all referrers of the subject vanish"))
-	// ordering
-	okOrd := true
-	for _, d := range deletes {
-		for _, p := range pushes {
-			if Reachable(d.(ssa.Instruction), p.(ssa.Instruction)) {
-				okOrd = false
-			}
-		}
-		cu := newCut().Calls(pushes)
-		if newList != nil {
-			cu.Edges(lenZeroEdges(Up, newList)...)
-		}
-		if !MustPass(d.(ssa.Instruction), cu) {
-			okOrd = false
-		}
-	}
-	c.Check(R, upn+"|push-precedes-delete", deletes[0].Pos(), okOrd,
-		ifelse(okOrd, "every path to the delete of the old index has pushed the new one, or the new list is empty", "the old index can be deleted before (or without) the push of a non-empty new index: a crash or failure in between leaves the subject without any referrers index"))
-	for i, p := range pushes {
-		rp := ErrFlow(p, ErrFlowOpts{})
-		okP := rp.OK
-		if e := ErrOf(p); e != nil {
-			_, nn, _ := NilTests(Up, Aliases(e))
-			for _, ed := range nn {
-				for _, d := range deletes {
-					if reach(ed.To, 0, d.(ssa.Instruction), nil) {
-						okP = false
-					}
-				}
-			}
-		}
-		c.Check(R, fmt.Sprintf("%s|push#%d-failure-stops", upn, i+1), p.Pos(), okP,
-			ifelse(okP, "a failed push is returned and the old index is not deleted", "after a failed push of the new index update continues (old index deleted, or nil returned): referrers are lost. "+rp.Detail))
-	}
-	// delete iff GC enabled and an old index exists
-	gcLoads := map[ssa.Value]bool{}
-	for _, ld := range c14FieldLoads(Up, "~/registry/remote.Repository", "SkipReferrersGC") {
-		gcLoads[ld] = true
-	}
-	skipT, skipF := BoolTests(Up, gcLoads)
-	descLoads := map[ssa.Value]bool{}
-	AllInstrs(Up, func(in ssa.Instruction) {
-		if ld, isLd := in.(*ssa.UnOp); isLd && ld.Op == token.MUL && isCellLoad(ld, cellDesc) {
-			descLoads[ld] = true
-		}
-	})
-	descNil, descNonNil, _ := NilTests(Up, descLoads)
-	okGuard := len(skipF) > 0 && len(descNonNil) > 0
-	for _, d := range deletes {
-		if !MustPass(d.(ssa.Instruction), newCut().Edges(skipF...)) || !MustPass(d.(ssa.Instruction), newCut().Edges(descNonNil...)) {
-			okGuard = false
-		}
-	}
-	c.Check(R, upn+"|delete-only-if-gc-and-old-index", deletes[0].Pos(), okGuard,
-		ifelse(okGuard, "the delete is reached only with SkipReferrersGC==false and oldIndexDesc!=nil", "the old index can be deleted with SkipReferrersGC set, or dereferenced when no old index exists"))
-	errVals := map[ssa.Value]bool{}
-	AllInstrs(Up, func(in ssa.Instruction) {
-		if v, isV := in.(ssa.Value); isV && isErrorType(v.Type()) {
-			if _, isCall := in.(*ssa.Call); isCall {
-				errVals[v] = true
-			}
-			if _, isEx := in.(*ssa.Extract); isEx {
-				errVals[v] = true
-			}
-		}
-	})
-	_, errNonNil, _ := NilTests(Up, errVals)
-	cuDone := newCut().Calls(deletes).Edges(skipT...).Edges(descNil...).Edges(tolE...).Edges(errNonNil...)
-	okIff := true
-	for _, ret := range Returns(Up) {
-		if ReachableFromEntry(ret) && !MustPass(ret, cuDone) {
-			okIff = false
-		}
-	}
-	c.Check(R, upn+"|superseded-index-deleted", deletes[0].Pos(), okIff,
-		ifelse(okIff, "every successful path either deletes the old index, or GC is skipped, or there was no old index, or nothing changed", "a successful update can return without deleting the superseded index although GC is enabled and an old index exists (dangling index manifests accumulate)"))
-	// a failed delete is reported as ReferrersError{Op: opDeleteReferrersIndex}
-	var opConst string
-	if k, isK := c.P.Obj(c14PkgRemote, "opDeleteReferrersIndex").(*types.Const); isK && k.Val().Kind() == constant.String {
-		opConst = constant.StringVal(k.Val())
-	} else {
-		c.LostAnchor(R, "constant ~/registry/remote.opDeleteReferrersIndex")
-		return
-	}
-	for i, d := range deletes {
-		rd := ErrFlow(d, ErrFlowOpts{})
-		okD := rd.OK
-		detail := rd.Detail
-		if e := ErrOf(d); e != nil && okD {
-			_, nn, _ := NilTests(Up, Aliases(e))
-			n := 0
-			for _, a := range RetAtoms(Up, ErrResultIndex(Up.Signature)) {
-				from := false
-				for _, ed := range nn {
-					if reach(ed.To, 0, a.Ret, nil) {
-						from = true
-					}
-				}
-				if !from {
-					continue
-				}
-				n++
-				mi, isMI := a.Val.(*ssa.MakeInterface)
-				if !isMI || c14NamedOf(mi.X.Type()) != "~/registry/remote.ReferrersError" {
-					okD, detail = false, "the value returned after a failed delete is not a *ReferrersError"
-					continue
-				}
-				al, isAlloc := mi.X.(*ssa.Alloc)
-				if !isAlloc {
-					okD, detail = false, "cannot resolve the returned *ReferrersError to a literal"
-					continue
-				}
-				opOK, errOK := false, false
-				for _, r := range *al.Referrers() {
-					fa, isFA := r.(*ssa.FieldAddr)
-					if !isFA {
-						continue
-					}
-					name := fieldName(fa.X.Type(), fa.Field)
-					for _, r2 := range *fa.Referrers() {
-						st, isSt := r2.(*ssa.Store)
-						if !isSt {
-							continue
-						}
-						if strings.HasSuffix(name, ".Op") {
-							if s, isS := constString(st.Val); isS && s == opConst {
-								opOK = true
-							}
-						}
-						if strings.HasSuffix(name, ".Err") && c14Derives(st.Val, Aliases(e), 0) {
-							errOK = true
-						}
-					}
-				}
-				if !opOK || !errOK {
-					okD, detail = false, "the returned ReferrersError does not carry Op=opDeleteReferrersIndex and the delete's error"
-				}
-			}
-			if n == 0 {
-				okD, detail = false, "no return on the failure edge of the delete"
-			}
-		}
-		c.Check(R, fmt.Sprintf("%s|delete#%d-failure-is-index-delete-error", upn, i+1), d.Pos(), okD,
-			ifelse(okD, "a failed delete of the old index is returned as *ReferrersError{Op: "+opConst+", Err: wraps the cause}", "a failed delete of the superseded index is not reported as the referrers-index-delete error callers are told to tolerate: "+detail))
-	}
-}
-
-// c14Evidence returns, for function f, the edges on which the Referrers API is
-// known not to be (known as) supported, and the complementary edges.
-func c14Evidence(c *Ctx, f *ssa.Function, supported int64) (notAvail, avail []Edge) {
-	probe := map[ssa.Value]bool{}
-	state := map[ssa.Value]bool{}
-	for _, call := range Calls(f, func(string) bool { return true }) {
-		g := StaticCallee(call)
-		if g == nil || !inModule(g) || call.Value() == nil {
-			continue
-		}
-		res := g.Signature.Results()
-		switch {
-		case res.Len() == 2 && ErrResultIndex(g.Signature) == 1 && types.Identical(res.At(0).Type(), types.Typ[types.Bool]) &&
-			len(CallsTo(g, "(*~/registry/remote.Repository).SetReferrersCapability")) > 0:
-			if ok := ResultOf(call, 0); ok != nil {
-				for a := range Aliases(ok) {
-					probe[a] = true
-				}
-			}
-		case res.Len() == 1 && c14ReturnsAtomicState(g):
-			// the recorded state is evidence only when it is read after an
-			// exchange that could have recorded "supported" (a callee that sets
-			// the capability from the registry's answer)
-			var probes []ssa.CallInstruction
-			for _, pc := range Calls(f, func(string) bool { return true }) {
-				pg := StaticCallee(pc)
-				if pg == nil || !inModule(pg) || pc == call {
-					continue
-				}
-				if reachesCall(pg, 3, func(n string, _ ssa.CallInstruction) bool {
-					return n == "(*~/registry/remote.Repository).SetReferrersCapability"
-				}) {
-					probes = append(probes, pc)
-				}
-			}
-			if len(probes) == 0 || !MustPass(call.(ssa.Instruction), newCut().Calls(probes)) {
-				continue
-			}
-			for a := range Aliases(call.Value()) {
-				state[a] = true
-			}
-		}
-	}
-	t, fl := BoolTests(f, probe)
-	avail, notAvail = append(avail, t...), append(notAvail, fl...)
-	for _, i := range Ifs(f) {
-		cond, te, fe := ifEdges(i)
-		bo, ok := cond.(*ssa.BinOp)
-		if !ok || (bo.Op != token.EQL && bo.Op != token.NEQ) {
-			continue
-		}
-		var k ssa.Value
-		if state[bo.X] {
-			k = bo.Y
-		} else if state[bo.Y] {
-			k = bo.X
-		} else {
-			continue
-		}
-		if n, isK := constInt(k); !isK || n != supported {
-			continue
-		}
-		if bo.Op == token.EQL {
-			avail, notAvail = append(avail, te), append(notAvail, fe)
-		} else {
-			avail, notAvail = append(avail, fe), append(notAvail, te)
-		}
-	}
-	return
-}
-
 // c14ReturnsAtomicState: g returns atomic.LoadInt32(&x.referrersState).
 func c14ReturnsAtomicState(g *ssa.Function) bool {
 	n := 0
 	for _, a := range RetAtoms(g, 0) {
 		call, ok := a.Val.(*ssa.Call)
-		if !ok || CalleeName(call) != "sync/atomic.LoadInt32" {
+		if !ok || (CalleeName(call) != "sync/atomic.LoadInt32" && CalleeName(call) != "(*sync/atomic.Int32).Load") {
 			return false
 		}
 		fa, ok := call.Call.Args[0].(*ssa.FieldAddr)
@@ -2015,279 +368,6 @@ func c14ReturnsAtomicState(g *ssa.Function) bool {
 		n++
 	}
 	return n > 0
-}
-
-func c14R3Callers(c *Ctx, us []*c14Upd) {
-	const R = "C14.R3.indexing-iff-subject-and-no-api"
-	c.Expect(R, 6)
-	k, ok := c.P.Obj(c14PkgRemote, "referrersStateSupported").(*types.Const)
-	if !ok {
-		c.LostAnchor(R, "constant ~/registry/remote.referrersStateSupported")
-		return
-	}
-	supported, _ := constant.Int64Val(k.Val())
-	isU := map[*ssa.Function]bool{}
-	for _, u := range us {
-		isU[u.U] = true
-	}
-	fns := c.P.FuncsOfPkg(c14PkgRemote)
-	callersOf := func(g *ssa.Function) []ssa.CallInstruction {
-		var out []ssa.CallInstruction
-		for _, f := range fns {
-			for _, call := range Calls(f, func(string) bool { return true }) {
-				if StaticCallee(call) == g {
-					out = append(out, call)
-				}
-			}
-		}
-		return out
-	}
-	var guarded func(call ssa.CallInstruction, depth int) (bool, string)
-	guarded = func(call ssa.CallInstruction, depth int) (bool, string) {
-		f := call.Parent()
-		notAvail, _ := c14Evidence(c, f, supported)
-		if len(notAvail) > 0 && MustPass(call.(ssa.Instruction), newCut().Edges(notAvail...)) {
-			return true, "in " + FnName(f)
-		}
-		if depth >= 2 {
-			return false, FnName(f) + " reaches it without testing the capability"
-		}
-		if f.Object() != nil && f.Object().Exported() {
-			return false, "exported " + FnName(f) + " reaches it without testing the capability"
-		}
-		cs := callersOf(f)
-		if len(cs) == 0 {
-			return false, FnName(f) + " has no static caller that tests the capability"
-		}
-		for _, cc := range cs {
-			if ok, why := guarded(cc, depth+1); !ok {
-				return false, why
-			}
-		}
-		return true, "in every caller of " + FnName(f)
-	}
-	n := 0
-	for _, f := range fns {
-		for _, call := range Calls(f, func(string) bool { return true }) {
-			if !isU[StaticCallee(call)] {
-				continue
-			}
-			n++
-			fn := FnName(f)
-			// subject present
-			subj := map[ssa.Value]bool{}
-			AllInstrs(f, func(in ssa.Instruction) {
-				if ld, ok := in.(*ssa.UnOp); ok && ld.Op == token.MUL && isFieldLoad(ld, "Subject") {
-					if _, isPtr := ld.Type().Underlying().(*types.Pointer); isPtr {
-						subj[ld] = true
-					}
-				}
-			})
-			_, nonNil, _ := NilTests(f, subj)
-			okS := len(nonNil) > 0 && MustPass(call.(ssa.Instruction), newCut().Edges(nonNil...))
-			// the subject argument is the decoded subject
-			okArg := false
-			for _, a := range call.Common().Args {
-				rs := Roots(a)
-				all := len(rs) > 0
-				for _, r := range rs {
-					d, isDeref := r.(*ssa.UnOp)
-					if !isDeref || d.Op != token.MUL || !isFieldLoad(d.X, "Subject") {
-						all = false
-					}
-				}
-				if all {
-					okArg = true
-				}
-			}
-			c.Check(R, fn+"|only-with-subject", call.Pos(), okS && okArg,
-				ifelse(okS && okArg, "the index update is reached only on the Subject!=nil edge and is given the decoded subject", "the referrers index update is reached without a (decoded) subject, or is given another descriptor than the manifest's subject"))
-			okG, why := guarded(call, 0)
-			c.Check(R, fn+"|only-without-referrers-api", call.Pos(), okG,
-				ifelse(okG, "every path to the index update has seen the Referrers API as not supported ("+why+")", "the client-side index is updated although the Referrers API may be known as supported: "+why))
-			// converse: with a subject and no API the update is not skipped
-			_, avail := c14Evidence(c, f, supported)
-			errVals := map[ssa.Value]bool{}
-			AllInstrs(f, func(in ssa.Instruction) {
-				if v, isV := in.(ssa.Value); isV && isErrorType(v.Type()) {
-					switch in.(type) {
-					case *ssa.Call, *ssa.Extract:
-						errVals[v] = true
-					}
-				}
-			})
-			_, errNonNil, _ := NilTests(f, errVals)
-			var ucalls []ssa.CallInstruction
-			for _, x := range Calls(f, func(string) bool { return true }) {
-				if isU[StaticCallee(x)] {
-					ucalls = append(ucalls, x)
-				}
-			}
-			cu := newCut().Calls(ucalls).Edges(avail...).Edges(errNonNil...)
-			okC := len(nonNil) > 0
-			for _, e := range nonNil {
-				if c14AnyReturnReachable(e.To, cu) != nil {
-					okC = false
-				}
-			}
-			c.Check(R, fn+"|never-skipped-with-subject", call.Pos(), okC,
-				ifelse(okC, "once a subject was decoded every non-error path updates the index unless the Referrers API is available", "a manifest with a subject can be pushed/deleted without updating the referrers index although the registry has no Referrers API: the referrer is never listed (or listed forever)"))
-		}
-	}
-	if n == 0 {
-		c.LostAnchor(R, "callers of the referrers index updater")
-	}
-}
-
-// c14R3TagInventory: who receives a referrers tag.  Every call that is handed
-// the result of the tag builder (directly, through a captured variable, or one
-// level down through a parameter) must be on the confirmed list; the only
-// write among them is the push in the update closure.
-func c14R3TagInventory(c *Ctx, us []*c14Upd) {
-	const R = "C14.R3.referrers-tag-users"
-	c.Expect(R, 7)
-	var tagFn *ssa.Function
-	for _, u := range us {
-		if u.TagFn != nil {
-			tagFn = u.TagFn
-		}
-	}
-	if tagFn == nil {
-		c.LostAnchor(R, "the referrers tag builder (producer of the pool key)")
-		return
-	}
-	table := map[string]string{
-		"(*~/registry/remote.manifestStore).updateReferrersIndex|(*~/internal/syncutil.Pool[T]).Get":                   "pool key (serialisation point)",
-		"(*~/registry/remote.manifestStore).updateReferrersIndex$1|(*~/registry/remote.Repository).referrersFromIndex": "read of the current index inside prepare",
-		"(*~/registry/remote.manifestStore).updateReferrersIndex$2|(*~/registry/remote.manifestStore).push":            "THE write: push of the new index inside the update closure run by Merge.Do",
-		"(*~/registry/remote.Repository).referrersByTagSchema|(*~/registry/remote.Repository).referrersFromIndex":      "read-only listing",
-		"(*~/registry/remote.Repository).referrersFromIndex|(*~/registry/remote.Repository).FetchReference":            "read (GET by tag)",
-		"(*~/registry/remote.Repository).referrersFromIndex|fmt.Errorf":                                                "error text",
-		"(*~/registry/remote.manifestStore).updateReferrersIndex$2|fmt.Errorf":                                         "error text",
-		"(*~/registry/remote.manifestStore).updateReferrersIndex$1|fmt.Errorf":                                         "error text",
-		"(*~/registry/remote.Repository).referrersByTagSchema|fmt.Errorf":                                              "error text",
-		"(*~/registry/remote.manifestStore).updateReferrersIndex|fmt.Errorf":                                           "error text",
-	}
-	required := []string{
-		"(*~/registry/remote.manifestStore).updateReferrersIndex|(*~/internal/syncutil.Pool[T]).Get",
-		"(*~/registry/remote.manifestStore).updateReferrersIndex$2|(*~/registry/remote.manifestStore).push",
-	}
-	seen := map[string]token.Pos{}
-	argIs := func(a ssa.Value, is func(ssa.Value) bool) bool {
-		if is(strip(a)) {
-			return true
-		}
-		// variadic []any{..., tag, ...}
-		if sl, ok := a.(*ssa.Slice); ok {
-			if al, ok := sl.X.(*ssa.Alloc); ok {
-				for _, r := range *al.Referrers() {
-					if ia, ok := r.(*ssa.IndexAddr); ok {
-						for _, r2 := range *ia.Referrers() {
-							if st, ok := r2.(*ssa.Store); ok && is(strip(st.Val)) {
-								return true
-							}
-						}
-					}
-				}
-			}
-		}
-		return false
-	}
-	var down []struct {
-		g   *ssa.Function
-		idx int
-	}
-	record := func(f *ssa.Function, is func(ssa.Value) bool, follow bool) {
-		for _, call := range Calls(f, func(n string) bool { return !strings.HasPrefix(n, "builtin:") }) {
-			for i, a := range call.Common().Args {
-				if !argIs(a, is) {
-					continue
-				}
-				k := FnName(f) + "|" + CalleeName(call)
-				if _, ok := seen[k]; !ok {
-					seen[k] = call.Pos()
-				}
-				if g := StaticCallee(call); follow && g != nil && inModule(g) && fnPkgPath(g) == pkgPath(c14PkgRemote) && i < len(g.Params) {
-					down = append(down, struct {
-						g   *ssa.Function
-						idx int
-					}{g, i})
-				}
-			}
-		}
-	}
-	nTagCalls := 0
-	theWrite := c.P.Fn(c14PkgRemote, "manifestStore.push")
-	if theWrite == nil {
-		c.LostAnchor(R, "~/registry/remote.manifestStore.push")
-		return
-	}
-	for _, f := range c.P.FuncsOfPkg(c14PkgRemote) {
-		for _, tc := range Calls(f, func(string) bool { return true }) {
-			if StaticCallee(tc) != tagFn {
-				continue
-			}
-			nTagCalls++
-			tv := ResultOf(tc, 0)
-			if tv == nil {
-				continue
-			}
-			al := Aliases(tv)
-			var cells []*ssa.Alloc
-			for _, r := range *tv.Referrers() {
-				if st, ok := r.(*ssa.Store); ok && st.Val == tv {
-					if a, ok := st.Addr.(*ssa.Alloc); ok {
-						cells = append(cells, a)
-					}
-				}
-			}
-			record(f, func(v ssa.Value) bool { return al[v] }, true)
-			for _, an := range Anons(f) {
-				record(an, func(v ssa.Value) bool {
-					a := c14FreeCell(v)
-					if a == nil {
-						return false
-					}
-					for _, cell := range cells {
-						if a == cell {
-							return true
-						}
-					}
-					return false
-				}, true)
-			}
-		}
-	}
-	doneDown := map[*ssa.Function]bool{}
-	for _, d := range down {
-		if doneDown[d.g] || d.g == theWrite {
-			continue // the write itself is the effect; its internals belong to C13
-		}
-		doneDown[d.g] = true
-		p := d.g.Params[d.idx]
-		al := Aliases(p)
-		record(d.g, func(v ssa.Value) bool { return al[v] }, false)
-	}
-	if nTagCalls < 2 {
-		c.LostAnchor(R, "calls of the referrers tag builder "+FnName(tagFn))
-	}
-	keys := make([]string, 0, len(seen))
-	for k := range seen {
-		keys = append(keys, k)
-	}
-	sort.Strings(keys)
-	for _, k := range keys {
-		if role, ok := table[k]; ok {
-			c.Exists(R, k, seen[k], true, role)
-		} else {
-			c.Violation(R, k, seen[k], "unclassified use of a referrers tag: this call receives a referrers tag but is not on the confirmed list (read of the index, pool key, or the single push inside the Merge-protected update closure); a push/tag/delete by referrers tag outside Merge.Do is an unserialised read-modify-write")
-		}
-	}
-	for _, k := range required {
-		if _, ok := seen[k]; !ok {
-			c.ob(R, k, token.NoPos, Lost, true, "required use of the referrers tag no longer present: "+table[k])
-		}
-	}
 }
 
 // ---------- R4 ----------
@@ -2328,11 +408,11 @@ func c14R4(c *Ctx) {
 					name = CalleeName(call)
 				}
 				switch {
-				case isCall && name == "sync/atomic.LoadInt32":
+				case isCall && (name == "sync/atomic.LoadInt32" || name == "(*sync/atomic.Int32).Load") && call.Call.Args[0] == ssa.Value(fa):
 					nLoad++
 					idx["load"]++
 					c.Exists(R, fmt.Sprintf("%s|atomic-load#%d", FnName(f), idx["load"]), in.Pos(), true, "atomic read of the capability")
-				case isCall && name == "sync/atomic.CompareAndSwapInt32" && call.Call.Args[0] == ssa.Value(fa):
+				case isCall && (name == "sync/atomic.CompareAndSwapInt32" || name == "(*sync/atomic.Int32).CompareAndSwap") && call.Call.Args[0] == ssa.Value(fa):
 					nCAS++
 					idx["cas"]++
 					old, okOld := constInt(call.Call.Args[1])
